@@ -411,11 +411,22 @@ pub fn query_config(deps: Deps) -> StdResult<ConfigResponse> {
 }
 
 pub fn query_pair(deps: Deps, asset_infos: [AssetInfo; 2]) -> StdResult<PairInfo> {
-    let pair_key = pair_key(&[
+    let raw_infos = [
         asset_infos[0].to_raw(deps.api)?,
         asset_infos[1].to_raw(deps.api)?,
-    ]);
+    ];
+    let pair_key = pair_key(&raw_infos);
     let pair_info: PairInfoRaw = PAIRS.load(deps.storage, &pair_key)?;
+
+    // the key concatenates two variable-length asset ids, so different asset sets can
+    // share a key: only answer with the record when it really is the requested set
+    let stored = &pair_info.asset_infos;
+    let same_set = (stored[0].equal(&raw_infos[0]) && stored[1].equal(&raw_infos[1]))
+        || (stored[0].equal(&raw_infos[1]) && stored[1].equal(&raw_infos[0]));
+    if !same_set {
+        return Err(StdError::not_found("haloswap::asset::PairInfoRaw"));
+    }
+
     pair_info.to_normal(deps.api)
 }
 
